@@ -130,6 +130,8 @@ def _flag_check(C, g, p, G, seed):
         C(got == cl, "not-exactly-the-cliques", lambda: "extra %r missing %r" % (sorted(map(sorted, got - cl))[:3], sorted(map(sorted, cl - got))[:3]))
     else:
         C(got <= cl and {c for c in cl if len(c) == 2} <= got, "not-a-subcomplex-of-the-clique-complex")
+        if g != "flag_complex" and p["p2"] == 0:
+            C(all(len(m) <= 2 for m in got), "p=0-has-triangles", lambda: "%d triangles filled" % sum(1 for m in got if len(m) == 3))
         if g == "flag_complex" and ps is not None:
             # each order is promoted on its own: probability 1 at order d fills every (d+1)-clique, whatever happened at lower orders
             for i, pr in enumerate(ps):
